@@ -6,6 +6,7 @@ import YardlModel.Imports
 import YardlModel.Proto
 import YardlModel.Schema
 import YardlModel.Json
+import YardlModel.Plan
 
 /-! Line-protocol driver for the wire engine: one JSON request per line on stdin, one JSON
     reply per line on stdout. -/
@@ -180,6 +181,61 @@ partial def jToExchange : Json.J → Lean.Json
   | .marr xs => Lean.Json.mkObj [("$m", Lean.Json.arr (xs.map jToExchange).toArray)]
   | .obj kvs => Lean.Json.mkObj [("$o", Lean.Json.arr (kvs.map fun (k, v) => Lean.Json.arr #[Lean.Json.str (bytesStr k), jToExchange v]).toArray)]
 
+/-! serializer expressions (C14): ["prim",p] | ["none"] | ["enum",base,flags] | ["opt",e] | ["union",[e…],simple,[kinds…]]
+    | ["vec",e] | ["fvec",e,n] | ["nd",e,rank] | ["fnd",e,[dims]] | ["dyn",e] | ["map",k,v] | ["rec",[e…]] -/
+mutual
+  partial def seToJson : Plan.SE → Lean.Json
+    | .prim p => Lean.Json.arr #["prim", Lean.Json.str p.name]
+    | .noneSer => Lean.Json.arr #["none"]
+    | .enumSer b f => Lean.Json.arr #["enum", seToJson b, Lean.Json.bool f]
+    | .optional e => Lean.Json.arr #["opt", seToJson e]
+    | .union cs s k => Lean.Json.arr #["union", Lean.Json.arr (sesToJson cs).toArray, Lean.Json.bool s, Lean.Json.arr (k.map jn).toArray]
+    | .vector e => Lean.Json.arr #["vec", seToJson e]
+    | .fixedVector e n => Lean.Json.arr #["fvec", seToJson e, jn n]
+    | .ndarray e n => Lean.Json.arr #["nd", seToJson e, jn n]
+    | .fixedNdarray e d => Lean.Json.arr #["fnd", seToJson e, Lean.Json.arr (d.map jn).toArray]
+    | .dynNdarray e => Lean.Json.arr #["dyn", seToJson e]
+    | .map k v => Lean.Json.arr #["map", seToJson k, seToJson v]
+    | .record fs => Lean.Json.arr #["rec", Lean.Json.arr (sesToJson fs).toArray]
+  partial def sesToJson : Plan.SEs → List Lean.Json
+    | .nil => []
+    | .cons e r => seToJson e :: sesToJson r
+end
+
+mutual
+  partial def seOfJson (j : Json) : Except String Plan.SE := do
+    let a ← j.getArr?
+    let tag ← (a[0]?.getD Json.null).getStr?
+    let arg (i : Nat) : Json := a[i]?.getD Json.null
+    match tag with
+    | "prim" =>
+      let s ← (arg 1).getStr?
+      match primOfString s with
+      | some p => pure (.prim p)
+      | none => throw s!"unknown prim {s}"
+    | "none" => pure .noneSer
+    | "enum" => pure (.enumSer (← seOfJson (arg 1)) (← (arg 2).getBool?))
+    | "opt" => pure (.optional (← seOfJson (arg 1)))
+    | "union" =>
+      let ks ← (arg 3).getArr?
+      pure (.union (← sesOfJson (← (arg 1).getArr?).toList) (← (arg 2).getBool?) (← ks.toList.mapM jNat))
+    | "vec" => pure (.vector (← seOfJson (arg 1)))
+    | "fvec" => pure (.fixedVector (← seOfJson (arg 1)) (← jNat (arg 2)))
+    | "nd" => pure (.ndarray (← seOfJson (arg 1)) (← jNat (arg 2)))
+    | "fnd" => pure (.fixedNdarray (← seOfJson (arg 1)) (← (← (arg 2).getArr?).toList.mapM jNat))
+    | "dyn" => pure (.dynNdarray (← seOfJson (arg 1)))
+    | "map" => pure (.map (← seOfJson (arg 1)) (← seOfJson (arg 2)))
+    | "rec" => pure (.record (← sesOfJson (← (arg 1).getArr?).toList))
+    | _ => throw s!"bad serializer expression tag {tag}"
+  partial def sesOfJson : List Json → Except String Plan.SEs
+    | [] => pure .nil
+    | j :: r => do pure (.cons (← seOfJson j) (← sesOfJson r))
+end
+
+def backendOfString : String → Except String Plan.Backend
+  | "py" => pure .pyBinary | "matlab" => pure .matlabBinary | "pyndjson" => pure .pyNdjson
+  | s => throw s!"bad backend {s}"
+
 def handle (j : Json) : Except String Json := do
   let op ← (← j.getObjVal? "op").getStr?
   match op with
@@ -330,6 +386,28 @@ def handle (j : Json) : Except String Json := do
       | .single v => ok v
       | .stream items => items.all ok
     pure (Json.mkObj [("lines", Lean.Json.arr lines.toArray), ("model_round_trip", Json.bool rt)])
+  | "emit" =>
+    -- the serializer expression each back end prints for every step of a protocol, and whether the
+    -- plan it denotes is the plan of the type (evaluated instance of every_backend_denotes_the_plan)
+    let p ← protoOfJson (← j.getObjVal? "proto")
+    let b ← backendOfString (← (← j.getObjVal? "backend").getStr?)
+    pure (Json.mkObj [("steps", Lean.Json.arr (p.map fun st => Json.mkObj [("name", Json.str st.name),
+      ("stream", Json.bool st.isStream), ("se", seToJson (Plan.emit b st.ty)),
+      ("plan", Schema.tyToJson (Plan.erase st.ty)),
+      ("denotes_plan", Json.bool (match Plan.denote b (Plan.emit b st.ty) with
+        | some t => toString (Schema.tyToJson t).compress == toString (Schema.tyToJson (Plan.erase st.ty)).compress
+        | none => false))]).toArray)])
+  | "denote" =>
+    -- the plan a (generated) serializer expression denotes, and the bytes a value gets under it
+    let b ← backendOfString (← (← j.getObjVal? "backend").getStr?)
+    let e ← seOfJson (← j.getObjVal? "se")
+    match Plan.denote b e with
+    | none => pure (Json.mkObj [("plan", Json.null)])
+    | some t =>
+      let hex ← match j.getObjVal? "val" with
+        | .ok vj => do pure (Json.str (toHex (enc t (← valOfJson vj))))
+        | .error _ => pure Json.null
+      pure (Json.mkObj [("plan", Schema.tyToJson t), ("hex", hex)])
   | "narrow" =>
     let b ← jNat (← j.getObjVal? "bits")
     pure (Json.mkObj [("f32", jn (Json.narrow b))])
